@@ -8,6 +8,7 @@
   (`Facts.replaceBound`).  Go panics are the explicit outcome `panic`; running out of fuel is `outOfFuel` ("hangs").
 -/
 import IocProofs.Lemmas.Placeholder
+import IocProofs.Lemmas.PlaceholderLayers
 namespace Ioc.C16
 open Ioc Ioc.Placeholder
 
@@ -201,6 +202,65 @@ example : process diaCfg (ofString "${twice}${zz:${base}}") = .value (ofString "
 example : process diaCfg (ofString "${k${sel}}${k${sel}}") = .value (ofString "/opt/app!/opt/app!") := by decide +kernel
 example : process diaCfg (ofString "${left}") = .error := by decide +kernel
 
+
+/-! ### the configuration changes between two resolutions (`Layers`: what was handed to Configure.Set, over the documents)
+
+    A placeholder is replaced by "the configured value of key": after Set that is what was set — at the path, below it,
+    above it, in any letter case.  The lookup is a function of the two layers as they are NOW (nothing remembers an earlier
+    answer, present or absent), and with nothing set it is the lookup every theorem above speaks about. -/
+
+/-- With nothing set the layered model IS the model of the theorems above: same lookup, same callback, same result. -/
+theorem C16_no_set (cfg : Cfg) :
+    (∀ key, (Layers.mk [] cfg).get key = get cfg key) ∧ replL ⟨[], cfg⟩ = repl cfg ∧
+      ∀ s, processL ⟨[], cfg⟩ s = process cfg s :=
+  ⟨get_no_set cfg, replL_no_set cfg, processL_no_set cfg⟩
+
+/-- Set, then a lookup of the same path written in any letter case: the value that was set (any value but nil), whatever
+    was configured, set or looked up before — also when the key was ABSENT before. -/
+theorem C16_set_get (l : Layers) (path path' : Bytes) (v : CVal) (hp : path' ≠ []) (hc : lower path' = lower path)
+    (hv : lowerKeys v ≠ .null) : (l.set path v).get path' = .val (some (lowerKeys v)) :=
+  set_get l path path' v hp hc hv
+
+/-- Set ABOVE, lookup BELOW: after Set("a", map) a key "a.q" that the map gives a value resolves to that value
+    (`svc.url` after Set("svc", {url: …}); `cache.ttl`, absent before, after Set("cache", {ttl: 60})). -/
+theorem C16_set_seen_below (l : Layers) (a q : Bytes) (vm : Cfg) (w : CVal)
+    (h : searchOver (lowerKeysM vm) (splitDots (lower q)) = some w) :
+    (l.set a (.map vm)).get (a ++ 46 :: q) = .val (some w) :=
+  set_seen_below l a q vm w h
+
+/-- Set BELOW, lookup ABOVE: after Set("a.q", v) the ancestor `a` answers with a map in which the rest of the path leads
+    to v. -/
+theorem C16_set_seen_through_ancestor (l : Layers) (a q : Bytes) (ha : a ≠ []) (v : CVal) :
+    ∃ sub, (l.set (a ++ 46 :: q) v).get a = .val (some (.map sub)) ∧
+      searchOver sub (splitDots (lower q)) = nilToNone (lowerKeys v) :=
+  set_seen_through_ancestor l a q ha v
+
+/-- … and the placeholder: `${key}` / `${key:default}` whose path has a present value in the override layer is replaced by
+    that value, formatted — not by an earlier answer, not by the default. -/
+theorem C16_set_present (l : Layers) (content key : Bytes) (dflt : Option Bytes) (v : CVal) (hk : key ≠ [])
+    (hs : splitColon content = (key, dflt)) (h : searchOver l.over (splitDots (lower key)) = some v)
+    (hp : isAbsent (some v) = false) : replL l content = .ok (format v) :=
+  replL_of_over l content key dflt v hk hs h hp
+
+/-- A second resolution of a tag is a first resolution under the configuration as it is then. -/
+theorem C16_resolve_again_current (cfg : Cfg) (ops : List (Bytes × CVal)) (tags : List Bytes) :
+    (resolveTwice cfg ops tags).2 = tags.map (processL ((Layers.mk [] cfg).setAll ops)) ∧
+      (resolveTwice cfg ops tags).1 = tags.map (process cfg) := by
+  refine ⟨rfl, ?_⟩
+  simp only [resolveTwice]
+  exact List.map_congr_left (fun s _ => processL_no_set cfg s)
+
+def svcCfg : Cfg := [(ofString "svc", .map [(ofString "url", .str (ofString "http://old")), (ofString "name", .str (ofString "billing"))])]
+def svcTags : List Bytes := [ofString "${svc.url}/${svc.name}?ttl=${cache.ttl:30}", ofString "${SVC.URL}"]
+example : resolveTwice svcCfg [(ofString "svc", .map [(ofString "URL", .str (ofString "http://new")), (ofString "name", .str (ofString "billing"))]),
+      (ofString "cache", .map [(ofString "ttl", .num (ofString "60"))])] svcTags =
+    ([.value (ofString "http://old/billing?ttl=30"), .value (ofString "http://old")],
+     [.value (ofString "http://new/billing?ttl=60"), .value (ofString "http://new")]) := by decide +kernel
+example : resolveTwice svcCfg [(ofString "SVC.URL", .str (ofString "http://new")), (ofString "cache.ttl", .num (ofString "60"))] svcTags =
+    ([.value (ofString "http://old/billing?ttl=30"), .value (ofString "http://old")],
+     [.value (ofString "http://new/billing?ttl=60"), .value (ofString "http://new")]) := by decide +kernel
+example : searchOver (lowerKeysM [(ofString "URL", .str (ofString "http://new"))]) (splitDots (lower (ofString "url"))) =
+    some (.str (ofString "http://new")) := by rfl
 /-! ### known findings pinned by the model (KF-C16-1, KF-C16-2): Go panics, not errors -/
 
 /-- a default that is a lone quote character: strconv2.ParseAny slices `val[1:0]` -/
